@@ -54,6 +54,8 @@ Op_Masked(o, rm, cm) == Op_Mk("Masked", <<o>>, <<rm, cm>>, <<>>)
 Op_Perm(p) == Op_Mk("Perm", <<>>, <<p>>, <<>>)                \* PermutationLinearOperator(perm)
 Op_TransPerm(m) == Op_Mk("TransPerm", <<>>, <<>>, <<m>>)      \* TransposePermutationLinearOperator(m)
 Op_Kernel(x1, x2, c, kind) == Op_Mk("Kernel", <<>>, <<x1, x2, c>>, <<kind>>)
+\* a kernel whose keyword arguments include a sub-OPERATOR: c * x1 M x2^T with the metric M given as an operator (KernelLinearOperator(..., metric=M, c=c))
+Op_KernelM(x1, x2, c, m) == Op_Mk("KernelM", <<m>>, <<x1, x2, c>>, <<>>)
 
 \* ---- documented meaning of the leaf structures ---------------------------
 \* symmetric Toeplitz from its first column: T[i,j] = c[|i-j|]
@@ -162,6 +164,7 @@ Op_Denote(t) ==
        [] c = "Perm" -> Op_PermDense(t.ts[1])
        [] c = "TransPerm" -> Op_TransPermDense(t.ks[1])
        [] c = "Kernel" -> Op_KernelDense(t.ts[1], t.ts[2], t.ts[3], t.ks[1])
+       [] c = "KernelM" -> T_Mul(T_Unsqueeze(T_Unsqueeze(t.ts[3], -1), -1), T_MatMul(T_MatMul(t.ts[1], D(1)), T_Transpose(t.ts[2])))
 
 Op_Shape(t) == Op_Denote(t).shape
 
@@ -205,7 +208,7 @@ Op_Size(t) ==
        [] c = "Masked" -> T_Batch(S(1)) \o <<T_SumSeq(t.ts[1].data), T_SumSeq(t.ts[2].data)>>
        [] c = "Perm" -> sq(T_DropLast(t.ts[1].shape), T_Last(t.ts[1].shape))
        [] c = "TransPerm" -> <<t.ks[1] * t.ks[1], t.ks[1] * t.ks[1]>>
-       [] c = "Kernel" ->
+       [] c \in {"Kernel", "KernelM"} ->
             T_BShape(T_BShape(T_Batch(t.ts[1].shape), T_Batch(t.ts[2].shape)), t.ts[3].shape)
               \o <<T_Last2(t.ts[1].shape), T_Last2(t.ts[2].shape)>>
 
